@@ -43,6 +43,14 @@ RULE = ("ops: 'dec' = primitives of the decimal model (add/sub/mul/div/round) on
         "construction and conversion; in the frame paths the neighbour signal is a byte-wide integer or a float32 / float64 signal whose "
         "physical value is read before or after that of the signal under test.  Every observation starts from the decimal context the "
         "thread had when the library was imported. "
+        "Shared tables ('share', three cases in ten, empty tables included): the table object the signal under test is constructed from "
+        "(constructor argument, int or decimal-text keys) has other holders - the caller keeps its dict, a sibling signal of another scaling is "
+        "constructed from the same dict before or after, a sibling is constructed from Signal.values of the signal under test or the signal "
+        "under test from the sibling's, the dict is registered with CanMatrix.add_value_table and both signals are constructed from "
+        "db.value_tables[name] - and one or two of the holders change THEIR table after the signal under test exists, right after construction "
+        "or after its first conversions: a label added on the raw value under test / on a bound / on a new key (dict assignment, "
+        "Signal.add_values of the sibling), an entry removed, the table cleared or cleared and refilled for the next signal.  The case sent to "
+        "the judge is the table the signal under test was given. "
         "Non-trivial = distinct case with a non-integer factor or non-zero offset.")
 EXHAUSTIVE = {"quick": False, "thorough": False}
 PARTIAL = ["float signals (raw value converted through Decimal(float)) are outside this property (integer signals); they occur as other "
@@ -288,6 +296,40 @@ def rand_hist(rng, sd):
             "uses": rand_uses(rng, labels, 2), "fin": rand_fin(rng), "conv": rng.choice(["after", "after", "before"])}
 
 
+SHARE_HOWS = ["caller", "sibling", "sibling", "copyctor", "fromsib", "global"]
+SHARE_HOLDERS = {"caller": ["caller"], "sibling": ["sibling", "sibling", "caller"], "copyctor": ["sibling", "sibling", "caller"],
+                 "fromsib": ["sibling", "caller"], "global": ["global", "sibling", "caller"]}
+
+
+def rand_share(rng, sd, raw=None, label=None):
+    """the table object the signal under test is constructed from has other holders, and they go on using THEIR table: what they do
+    to it after the signal under test exists is no business of that signal"""
+    how = rng.choice(SHARE_HOWS)
+    lo, hi = raw_bounds(sd["size"], sd["signed"])
+    keys = [k for k, _ in sd["values"]]
+    labels = [v for _, v in sd["values"]]
+    muts = []
+    for _ in range(rng.choice([1, 1, 2])):
+        holder = rng.choice(SHARE_HOLDERS[how])
+        c = rng.random()
+        if c < 0.5 or not keys:
+            if raw is not None:
+                k = rng.choice([raw, raw, raw, lo, hi, 0 if lo <= 0 else lo])
+            else:
+                k = rng.choice([lo, hi, 0 if lo <= 0 else lo, min(1, hi), rng.randint(lo, hi)])
+            lab = label if label is not None and rng.random() < 0.7 else rng.choice(["SNA", "Shared", "On"] + labels)
+            muts.append([holder, "add", k, lab])
+        elif c < 0.75:
+            own = [k for k, v in sd["values"] if v == label]
+            k = raw if raw in keys and rng.random() < 0.7 else rng.choice(own) if own and rng.random() < 0.7 else rng.choice(keys)
+            muts.append([holder, "del", k])
+        elif c < 0.9:
+            muts.append([holder, "clear"])
+        else:
+            muts.append([holder, "reuse"])
+    return {"how": how, "sibfirst": rng.random() < 0.5, "muts": muts, "when": rng.choice(["built", "built", "used"])}
+
+
 VIAS = ["signal", "signal", "decoded", "decoded", "frame", "matrix"]
 LABEL_VIAS = ["signal", "signal", "frame"]
 
@@ -327,12 +369,16 @@ def gen(rng, tier, shard, nshards):
                 if i % 4 == 0:
                     hist = rand_hist(rng, sd)
                 c["hist"] = hist
+            if rng.random() < 0.3:
+                c["share"] = rand_share(rng, sd, raw=r)
             yield {"op": "scale", "c": rand_env(rng, c)}
         if sd["values"]:
             for lab in sorted({v for _, v in sd["values"]} | {"NoSuchLabel"}):
                 c = {"sig": sd, "label": lab, "via": label_via(rng, sd, lab)}
                 if with_hist:
                     c["hist"] = rand_hist(rng, sd)
+                if rng.random() < 0.3:
+                    c["share"] = rand_share(rng, sd, label=lab)
                 yield {"op": "label", "c": rand_env(rng, c)}
 
 
@@ -346,6 +392,8 @@ def neighbours(case, rng, shard, nshards):
                 c = {"sig": sd, "raw": r, "via": rng.choice(VIAS)}
                 if rng.random() < 0.6:
                     c["hist"] = rand_hist(rng, sd)
+                if rng.random() < 0.3:
+                    c["share"] = rand_share(rng, sd, raw=r)
                 yield {"op": "scale", "c": rand_env(rng, c)}
             # the same signal and path as the disagreeing case, other raw values and other histories
             if case["op"] == "scale":
@@ -354,7 +402,7 @@ def neighbours(case, rng, shard, nshards):
                     c = {"sig": sd0, "raw": r, "via": case["c"].get("via", "signal")}
                     if "hist" in case["c"]:
                         c["hist"] = rng.choice([case["c"]["hist"], rand_hist(rng, sd0)])
-                    for k in ("others", "nb", "nbfirst"):
+                    for k in ("others", "nb", "nbfirst", "share"):
                         if k in case["c"]:
                             c[k] = case["c"][k]
                     yield {"op": "scale", "c": c}
@@ -475,8 +523,74 @@ def _uses(s, uses):
     return s
 
 
-def build(sd, hist):
-    """the Signal object in state `sd` after the life `hist` (None: built afresh as before)"""
+class _Share(object):
+    """the other holders of the table object the signal under test is constructed from"""
+
+    def __init__(self, sh, sd):
+        self.sh, self.sd = sh, sd
+        self.tab = _ctor_table(sd)          # the caller's dict
+        self.sib = self.db = None
+        self.s = None
+
+    def _sibling(self, table):
+        sd = self.sd
+        return cm.Signal("sib", size=sd["size"], is_signed=sd["signed"], factor=decimal.Decimal(3), offset=decimal.Decimal(7), values=table)
+
+    def _source(self):
+        return self.db.value_tables["T"] if self.db is not None else self.tab
+
+    def table(self):
+        """the object handed to the constructor of the signal under test"""
+        how = self.sh["how"]
+        if how == "global":
+            self.db = cm.CanMatrix()
+            self.db.add_value_table("T", self.tab)
+        if how == "fromsib":
+            self.sib = self._sibling(self.tab)
+            return self.sib.values
+        if how in ("sibling", "global") and self.sh["sibfirst"]:
+            self.sib = self._sibling(self._source())
+        return self._source()
+
+    def after(self, s):
+        """the signal under test exists (`s` is the object the constructor returned)"""
+        how = self.sh["how"]
+        if how == "copyctor":
+            self.sib = self._sibling(s.values)
+        elif how in ("sibling", "global") and self.sib is None:
+            self.sib = self._sibling(self._source())
+
+    def mutate(self):
+        """the other holders change their table"""
+        for m in self.sh["muts"]:
+            holder, kind = m[0], m[1]
+            sib = self.sib if holder == "sibling" else None
+            d = sib.values if sib is not None else self.db.value_tables["T"] if holder == "global" and self.db is not None else self.tab
+            if kind == "add":
+                if sib is not None:
+                    sib.add_values(m[2], m[3])
+                else:
+                    d[m[2] if not any(isinstance(k, str) for k in d) else str(m[2])] = m[3]
+            elif kind == "del":
+                d.pop(m[2], None)
+                d.pop(str(m[2]), None)
+            elif kind == "clear":
+                d.clear()
+            else:
+                # the caller goes on using its dict for the next signal
+                d.clear()
+                d.update({0: "Closed", 1: "Open"})
+                cm.Signal("next", size=1, is_signed=False, values=d)
+
+
+def build(sd, hist, share=None):
+    """the Signal object in state `sd` after the life `hist` (None: built afresh as before); `share`: the table comes from an object
+    that has other holders"""
+    if hist is None and share is not None:
+        s = cm.Signal("s", size=sd["size"], is_signed=sd["signed"], factor=dec_of(sd["factor"]), offset=dec_of(sd["offset"]),
+                      values=share.table(), **_dress_kw(sd))
+        share.after(s)
+        return s
     if hist is None:
         return mksig(sd)
     prev = hist["prev"]
@@ -491,7 +605,11 @@ def build(sd, hist):
     if hist["ctor"] == "plain":
         # unit and comment are there from the start (otherwise they are assigned when the final state is reached)
         kw.update(_dress_kw(sd))
+    if share is not None:
+        kw["values"] = share.table()
     s = cm.Signal("s", size=first["size"], is_signed=first["signed"], factor=dec_of(first["factor"]), offset=dec_of(first["offset"]), **kw)
+    if share is not None:
+        share.after(s)
     cur = first
     for i, st in enumerate(prev):
         if i:
@@ -623,7 +741,10 @@ def observe(case):
     for o in others:
         if o["when"] == "before":
             _use_other(o)
-    s = build(sd, hist)
+    share = _Share(c["share"], sd) if c.get("share") else None
+    s = build(sd, hist, share)
+    if share is not None and (c["share"]["when"] == "built" or op == "label"):
+        share.mutate()
     for o in others:
         if o["when"] != "before":
             _use_other(o)
@@ -659,6 +780,8 @@ def observe(case):
             s.raw2phys(other, decode_to_str=True)
         except Exception:  # noqa
             pass
+    if share is not None and c["share"]["when"] != "built":
+        share.mutate()
     # the physical and the named value, read on the path the case names
     if via == "signal":
         phys = s.raw2phys(raw)
@@ -723,6 +846,13 @@ def features(case, impl):
                     "has a label of its own" if any(k == c["raw"] for k, _ in sd["values"]) else "has no label")
         if case["op"] == "label" and any(v == c["label"] and not lo <= k <= hi for k, v in sd["values"]):
             yield "label sits on a key outside the raw range"
+        if "share" in c:
+            yield "table object shared: " + c["share"]["how"]
+            for m in c["share"]["muts"]:
+                yield "other holder changes its table: %s %s" % (m[0], m[1])
+            yield "other holder changes its table %s" % ("right after construction" if c["share"]["when"] == "built" else "after the first conversions")
+        else:
+            yield "table object shared: no"
         kinds = sorted({"float" if o["kind"] != "int" else "integer" for o in c.get("others", [])})
         yield "other signals used first: " + ("+".join(kinds) if kinds else "none")
         for o in c.get("others", []):
